@@ -14,6 +14,7 @@ import (
 	"strings"
 	"sync"
 	"testing"
+	"time"
 
 	"github.com/agiledragon/gomonkey/v2"
 )
@@ -190,6 +191,10 @@ func StepBudget(n int) {}
 // Settle runs all other goroutines until they are blocked or done (engine);
 // natively it yields for a short while.
 func Settle() {
+	for i := 0; i < 200; i++ {
+		runtime.Gosched()
+	}
+	time.Sleep(3 * time.Millisecond)
 	for i := 0; i < 200; i++ {
 		runtime.Gosched()
 	}
